@@ -26,8 +26,8 @@ OUTSIDE = ["rounding of the multiplicative norms (a+b-a*b may exceed 1 by an ulp
 ASSUMPTIONS = ["a, b, c in [0,1]", "Mode R: IEEE specials over exact reals (no rounding)"]
 STUBS = []
 
-LAWS_T = ["formula", "range", "commutative", "monotone", "associative", "identity", "annihilator", "le_min", "arrays"]
-LAWS_S = ["formula", "range", "commutative", "monotone", "associative", "identity", "annihilator", "ge_max", "arrays"]
+LAWS_T = ["formula", "range", "commutative", "monotone", "associative", "identity", "annihilator", "le_min", "arrays", "kinds"]
+LAWS_S = ["formula", "range", "commutative", "monotone", "associative", "identity", "annihilator", "ge_max", "arrays", "kinds"]
 F_EXACT = ["Minimum", "Maximum", "BoundedDifference", "BoundedSum", "DrasticProduct", "DrasticSum",
            "NilpotentMinimum", "NilpotentMaximum", "UnboundedSum"]
 
@@ -61,6 +61,10 @@ def _replay(name, law, other=None):
                       "bad = not (same(r, [f(p, q) for p, q in zip(X, Y)], tol) and same(r2, [[f(p, q) for q in Y] for p in X[:2]], tol)"
                       " and same(A, X) and same(B, Y) and same(col, [[X[0]], [X[1]]]) and same(row, [Y]))",
             "dual": f"M = fl.{other}(); bad = not same(float(M.compute(a,b)), 1 - f(1-a,1-b), tol)" if other else "bad = False",
+            "kinds": "pb, qb = bool(v.get('p', False)), bool(v.get('q', False))\n"
+                     "r1 = N.compute(np.bool_(pb), np.bool_(qb)); r2 = N.compute(np.array([pb, qb]), np.array([qb, qb])); r3 = N.compute([a, b], [c, a2]); r4 = N.compute((a, b), np.array([c, a2]))\n"
+                     "bad = not (same(r1, spec(float(pb), float(qb)), tol) and same(r2, [spec(float(pb), float(qb)), spec(float(qb), float(qb))], tol)"
+                     " and same(r3, [spec(a, c), spec(b, a2)], tol) and same(r4, [spec(a, c), spec(b, a2)], tol))",
         }[law]
         lines.append(chk)
         lines.append(f"verdict(bad, '{name}.{law} a=%r b=%r c=%r a2=%r -> %r' % (a,b,c,a2,f(a,b)))")
@@ -93,6 +97,10 @@ def _ob_law(name, law, is_t, tier):
                 return (N.compute(a, one if is_t else zero), N.compute(one if is_t else zero, a))
             if law == "annihilator":
                 return (N.compute(a, zero if is_t else one), N.compute(zero if is_t else one, a))
+            if law == "kinds":
+                # operands that are not float64: crisp (boolean) degrees - whose own `+`/`*` are logical or/and - and Python sequences
+                P, Q = core.SymBool(z3.Bool("p")), core.SymBool(z3.Bool("q"))
+                return (N.compute(P, Q), N.compute(sym_array([P, Q]), sym_array([Q, Q])), N.compute([a, b], [c, a2]), N.compute((a, b), sym_array([c, a2])), P, Q)
             if law == "arrays":
                 n = 2 if tier == "quick" else 3
                 xs = [rvar(f"x{i}") for i in range(n)]
@@ -146,6 +154,18 @@ def _ob_law(name, law, is_t, tier):
             elif law == "ge_max":
                 x = tf(r[0])
                 ob.prove(pre, p, z3.And(x.v >= a.v, x.v >= b.v), f"{name}/ge_max", ins, rp)
+            elif law == "kinds":
+                r1, r2, r3, r4, P, Q = r
+                ins3 = dict(ins)
+                ins3.update({"p": P, "q": Q})
+                fz = lambda x: z3.If(x.e, z3.RealVal(1), z3.RealVal(0))   # noqa: E731
+                if kind_of(r2) != ("array", (2,)) or kind_of(r3) != ("array", (2,)) or kind_of(r4) != ("array", (2,)):
+                    ob.prove(pre, p, False, f"{name}/kinds/shape {kind_of(r2)} {kind_of(r3)} {kind_of(r4)}", ins3, rp)
+                    continue
+                e2, e3, e4 = core.elements(r2), core.elements(r3), core.elements(r4)
+                ob.prove(pre, p, z3.And(is_val(r1, f(fz(P), fz(Q))), is_val(e2[0], f(fz(P), fz(Q))), is_val(e2[1], f(fz(Q), fz(Q)))), f"{name}/kinds/boolean", ins3, rp)
+                ob.prove(pre, p, z3.And(is_val(e3[0], f(a.v, c.v)), is_val(e3[1], f(b.v, a2.v)), is_val(e4[0], f(a.v, c.v)), is_val(e4[1], f(b.v, a2.v))),
+                         f"{name}/kinds/sequences", ins3, rp)
             elif law == "arrays":
                 r1, el1, r2, el2, xs, ys, (A, B, col, row) = r
                 pre2 = [unit(v) for v in xs + ys]
